@@ -122,6 +122,69 @@ def spec_check(obs, quiet, werror=False):
     return bad
 
 
+def run_outputs(bdir, wd, rng):
+    """Secondary outputs that cannot be opened, and source paths with dots in directory names: whatever happens, the
+    status is a documented one, a status other than 0 comes with a reported error and without a code file, and status 0
+    comes with the code file where the manual says it is written (source name with the extension replaced)."""
+    spec_fail = []
+    n = 0
+    dist = {}
+    src = "\tcpu z80\n\tnop\n\tdb 1,2,3\n"
+    blockers = [("map", ["-g", "MAP"], "prog.map"), ("lst", ["-L"], "prog.lst"), ("i", ["-P"], "prog.i"), ("mac", ["-M"], "prog.mac"),
+                ("share", ["-s"], "prog.inc"), ("shareout", ["-shareout", "sh.inc"], "sh.inc"), ("olist", ["-L", "-olist", "l.txt"], "l.txt"),
+                ("errfile", ["-E", "e.log"], "e.log"), ("noice", ["-g", "NOICE"], "prog.noi"), ("atmel", ["-g", "ATMEL"], "prog.obj"),
+                ("code", [], "prog.p"), ("outname", ["-o", "out.p"], "out.p")]
+    for tag, opts, victim in blockers:
+        for faulty in (False, True):
+            d = os.path.join(wd, "ob_%s_%d" % (tag, faulty))
+            os.makedirs(d)
+            open(os.path.join(d, "prog.asm"), "w").write(src + ("\tbogus\n" if faulty else ""))
+            os.makedirs(os.path.join(d, victim))        # a directory where the output file should be created
+            extra = rng.choice([[], ["-q"], ["-x"], ["-q", "-n"]])
+            rc, so, se = common.run_tool(bdir, "asl", opts + extra + ["prog.asm"], d, timeout=60)
+            n += 1
+            code = "out.p" if tag == "outname" else "prog.p"
+            has_code = os.path.isfile(os.path.join(d, code))
+            said = bool(re.search(rb"error", so + se))
+            bad = []
+            if rc not in (0, 2, 3):
+                bad.append("status %s is not a documented code" % rc)
+            if rc != 0 and has_code:
+                bad.append("status %s but the code file was kept" % rc)
+            if rc != 0 and not said:
+                bad.append("status %s without any error message" % rc)
+            if rc == 0 and not has_code:
+                bad.append("status 0 but no code file")
+            if rc == 0 and faulty:
+                bad.append("status 0 although the source has an error")
+            dist["blocked:" + tag + ":" + str(rc)] = dist.get("blocked:" + tag + ":" + str(rc), 0) + 1
+            if bad:
+                spec_fail.append(dict(sig=None, tag="unopenable-output:" + tag, why="; ".join(bad), options=opts + extra, source=src,
+                                      setup="a directory named %s exists where the output file is to be created" % victim,
+                                      observed=dict(status=rc, code_file=has_code, stderr_tail=(so + se)[-300:].decode(errors="replace"))))
+    # source paths with dots in directory names
+    for k in range(6):
+        comps = [rng.choice(["sub.v1", "a.b", "rel-1.2.3", "x.y.z", "plain", "v2.0"]) for _ in range(rng.choice([1, 2, 3]))]
+        d = os.path.join(wd, "dots_%d" % k)
+        sd = os.path.join(d, *comps)
+        os.makedirs(sd)
+        base = rng.choice(["prog", "my.prog", "p"])
+        open(os.path.join(sd, base + ".asm"), "w").write(src)
+        rel = os.path.join(*comps, base + ".asm")
+        opts = rng.choice([[], ["-L"], ["-g", "MAP"], ["-L", "-s"]])
+        rc, so, se = common.run_tool(bdir, "asl", ["-q"] + opts + [rel], d, timeout=60)
+        n += 1
+        # the manual: the code file gets the source's name with the extension replaced by .p (doc/assembler-usage.md, Calling Conventions)
+        stem = base.split(".")[0]
+        want = os.path.join(sd, stem + ".p")
+        found = [os.path.relpath(os.path.join(r, f), d) for r, _ds, fs in os.walk(d) for f in fs if f.endswith(".p")]
+        dist["dotted-path:" + ("ok" if os.path.isfile(want) else "elsewhere")] = dist.get("dotted-path:" + ("ok" if os.path.isfile(want) else "elsewhere"), 0) + 1
+        if rc != 0 or not os.path.isfile(want):
+            spec_fail.append(dict(sig=None, tag="dotted-directory", why="asl %s: status %s, code file expected at %s, code files found: %s" % (rel, rc, os.path.relpath(want, d), found),
+                                  options=opts, source=src, observed=dict(status=rc, stderr_tail=(so + se)[-300:].decode(errors="replace"))))
+    return dict(spec_fail=spec_fail, evaluations=n, dist=dist)
+
+
 def run(args):
     res = common.Result("C02", args.tier, args.seed, "proof")
     bdir, audit, proof_problems = common.standard_setup(res, "C02", ["Widths", "PassConsts"])
@@ -222,6 +285,11 @@ def run(args):
     with common.Workdir("c02x") as wd:
         cp = c02_chan.run_part(args, bdir, wd)
     spec_fail += cp["spec_fail"]
+    with common.Workdir("c02o") as wd:
+        op = run_outputs(bdir, wd, rng)
+    spec_fail += op["spec_fail"]
+    dist["outputs"] = op["dist"]
+    cp["evaluations"] += op["evaluations"]
     corr_fail += cp["corr_fail"]
     proof_problems += cp["problems"]
     dist["channels_and_passes"] = cp["dist"]
